@@ -124,6 +124,7 @@ func c11Preview(c c11Case) any {
 
 func checkC11(c c11Case, rec *Rec) *Violation {
 	const id = "C11"
+	trackCase(id, "C11:process-killed", c)
 	want := c11Reference(c.Lists)
 	feats := 0
 	var all []byte
